@@ -221,7 +221,7 @@ func c17Gen(sp c17Spec) *c17Plot {
 			default:
 				n = int(c17LogU(r, 1, float64(maxN)+0.999))
 			}
-			if sp.Profile == "big" && a == 0 {
+			if (sp.Profile == "big" || sp.Profile == "big-threshold-0") && a == 0 {
 				n = maxN - r.Intn(1+maxN/10)
 			}
 			if n < 1 {
@@ -350,6 +350,9 @@ func c17Gen(sp c17Spec) *c17Plot {
 	}
 	if sp.Profile == "default-threshold" {
 		pc.Threshold = 4000
+	}
+	if sp.Profile == "big-threshold-0" { // more points than the command's default threshold, downsampling switched off
+		pc.Threshold = 0
 	}
 
 	// cli: deal the arrival order into files
@@ -1225,6 +1228,8 @@ func runC17(c *Ctx) int {
 			sp.Profile, sp.MaxN = "big", 5000
 		case i%25 == 12:
 			sp.Profile, sp.MaxN = "default-threshold", 5000
+		case i%25 == 17:
+			sp.Profile, sp.MaxN = "big-threshold-0", 5000
 		case i%40 == 1:
 			sp.Profile = "late-series"
 		case i%40 == 21:
@@ -1239,6 +1244,8 @@ func runC17(c *Ctx) int {
 		switch {
 		case i%8 == 5:
 			sp.Profile, sp.MaxN = "default-threshold", 5000
+		case i%8 == 2:
+			sp.Profile, sp.MaxN = "big-threshold-0", 5000
 		case i%16 == 9:
 			sp.Profile = "late-series"
 		}
